@@ -38,7 +38,9 @@ REJECT_KINDS = ["other", "samename-atoms", "samename-count", "returned", "none",
 @st.composite
 def op_strategy(draw):
     k = draw(st.sampled_from(["call", "call", "call", "again", "call_ref", "reject", "reject", "mutate", "call_deg",
-                              "same_scale", "call_near", "call_near"]))
+                              "same_scale", "call_near", "call_near", "late_refusal"]))
+    if k == "late_refusal":
+        return ["late_refusal", draw(gen.SEEDS), draw(st.integers(1, 99000))]
     if k == "same_scale":
         return ["same_scale"]
     if k == "call_near":
@@ -180,6 +182,24 @@ def check(case):
             mol = build_molecule(rspec, coords=coords, resids=resids)
             args.append((mol, coords.copy(), resids))
             do_call(step, len(args) - 1)
+        elif kind == "late_refusal":
+            # a molecule of the RIGHT species in a new conformation whose residue number cannot be given to the result
+            # (a numpy integer; two numbers for one residue of the target): the call is refused at its very end - or
+            # not at all - and whatever it did on the way must not show in the calls that follow
+            coords = _conformation(rpos, rspec["edges"], op[1])
+            mol = build_molecule(rspec, coords=coords, resids=[op[2] + r for r in range(nres)])
+            try:
+                with env.quiet():
+                    if op[1] % 2 or len(mol.residues[0]) < 2:
+                        mol.residues[0].resid = np.arange(op[2], op[2] + 3)[1]
+                    else:
+                        first = list(mol.residues[0])
+                        for at in first[len(first) // 2:]:
+                            at.resid = op[2] + 500
+                    M(mol)
+            except Exception:      # noqa: BLE001
+                pass
+            disturbed_since = True
         elif kind == "again":
             if args:
                 do_call(step, op[1] % len(args))
